@@ -7,6 +7,11 @@ TRUST = ("Trusted base: go/ssa (x/tools v0.50.0), the forked ssa/interp core and
          "Bounds are those printed in the evidence file; anything outside them is not claimed. ")
 
 CHECKS = {
+ "C15": dict(
+  technique="bounded symbolic execution (go/ssa -> SMT, z3) of the chain hash.Controller.Reconcile -> NewNodeClaimTemplate -> NewNodeClaim/CanAdd/Add/FinalizeScheduling/ToNodeClaim -> provider launch choice -> PopulateNodeClaimDetails -> nodeclaim/disruption.Controller.Reconcile (Drift), with label values as atoms of solver-chosen numeric interpretation and math/rand as an arbitrary value",
+  text="Drift half only. No self-drift: for every NodePool with 0..2 expressions of any operator on a custom key, zone / capacity-type / architecture constraints, every interleaving of a drift-relevant template edit with hash-controller reconciles before NodeClaim creation and after launch, every permitted launch choice (instance type x available compatible offering) and NodeClaim age (before/after the instance-type check starts), the NodeClaim is not reported Drifted once the hash controller has seen the latest template. Drifted-when: for arbitrary hash/version annotations (absent or one of two values on both objects), requirements and labels, a launched NodeClaim is Drifted exactly when hash differs under equal versions, or its labels fail the NodePool's requirements under Kubernetes selector semantics, or the provider reports drift, with the reason of the first cause; a NodeClaim that is not launched is never Drifted. Known findings C15-F1 (via C13-F3) and C15-F2 (via C12-F1/F2) are reported.",
+  ref="DESIGN.md §7 C15",
+  note="NOT decided by this check: the hash half of the property (which template fields enter NodePool.Hash, its insensitivity to list/map order): mitchellh/hashstructure walks the value by reflection and hashes with FNV; the engine replaces it by a deterministic model (equal templates hash equal, templates differing in a hashed field differ), so nothing is claimed about the real hash function. The window in which the NodePool still carries the pre-edit hash is outside the claim."),
  "C01": dict(
   technique="bounded symbolic execution (go/ssa -> SMT, z3) of one placement step of the scheduler on the real types: NodeClaim.CanAdd/Add + FinalizeScheduling + InstanceTypes filtering for a new NodeClaim, and NewExistingNode/ExistingNode.CanAdd/Add for an existing or in-flight node; symbolic requests, capacities, overheads, offering availability; independent admissibility oracle",
   text="New NodeClaim: whenever a pod with symbolic cpu/memory requests, an optional zone/capacity-type/custom-label selector, tolerations and host port is accepted onto a NodeClaim of a NodePool with 2 instance types x 2 offerings, every remaining instance type is compatible with the merged requirements, fits requests + daemon overhead, and has an available compatible offering; taints are tolerated and host ports do not clash. Existing node: a pod is accepted only if requests fit what is left after bound pods and the remaining DaemonSet overhead, requirements and taints admit it. Known finding C01-F1 is reported.",
